@@ -185,6 +185,32 @@ func run(c *mon.Ctx) {
 		if ok && pat != nil {
 			isPMTSweep(c, pat, &p, r, i%500 == 0)
 		}
+		// the caller's buffer is re-used for the next table of the same size: the new PAT object reports the
+		// new table through every accessor (IsPMT included)
+		if ok && len(p.Entries) > 0 && i%3 == 0 {
+			q := genPAT(r, 253)
+			for len(q.Entries) != len(p.Entries) {
+				if len(q.Entries) > len(p.Entries) {
+					q.Entries = q.Entries[:len(p.Entries)]
+				} else {
+					q.Entries = append(q.Entries, ref.PATEntry{Program: uint16(1000 + len(q.Entries)), PID: r.Intn(8192)})
+				}
+			}
+			seen := map[uint16]bool{}
+			for k := range q.Entries {
+				for q.Entries[k].Program != 0 && seen[q.Entries[k].Program] {
+					q.Entries[k].Program++
+				}
+				seen[q.Entries[k].Program] = true
+			}
+			copy(pay[1:], q.Section())
+			snap2 := append([]byte{}, pay...)
+			pat2, err2 := psi.NewPAT(pay)
+			c.Count("payload.buffer_reused_for_next_table")
+			if checkPAT(c, "payload-buffer-reused", pat2, err2, &q, snap2) && pat2 != nil {
+				isPMTSweep(c, pat2, &q, r, false)
+			}
+		}
 		cls := fmt.Sprintf("payload/n=%s/net=%v/padded=%v", nClass(len(p.Entries)), hasNet(&p), pad > 0)
 		if len(p.Entries) > 0 && c.Class(cls) && c.WantSample() && len(p.Entries) < 5 {
 			c.Sample(func() interface{} { return wit{"payload", entriesString(&p), mon.Hex(snap), ""} })
